@@ -57,6 +57,15 @@ CASES = [
     {"id": "name-dashdash-list", "data": "[(1,)]", "schema": "['a--b']"},
     {"id": "name-dashdash-dict-rows", "data": "[{'a--b': 1}]", "schema": "None"},
     {"id": "name-space-upper", "data": "[(1, 2)]", "schema": "['a b', 'B']"},
+    # --- declared names with upper-case letters, every schema form and container kind
+    {"id": "case-names-list", "data": "[(1, 'x')]", "schema": "['Id', 'userName']"},
+    {"id": "case-ddl", "data": "[(1, 'x')]", "schema": "'Id bigint, userName string'"},
+    {"id": "case-structtype", "data": "[[1, 'x']]",
+     "schema": "T.StructType([T.StructField('Id', T.LongType()), T.StructField('userName', T.StringType())])"},
+    {"id": "case-dict-rows", "data": "[{'Id': 1, 'userName': 'x'}]", "schema": "None"},
+    {"id": "case-row-rows", "data": "[Row(Id=1, userName='x')]", "schema": "None"},
+    {"id": "case-row-ddl", "data": "[Row(Id=1, userName='x')]", "schema": "'Id bigint, userName string'"},
+    {"id": "case-dict-names", "data": "[{'Id': 1, 'userName': 'x'}]", "schema": "['Id', 'userName']"},
     # --- DDL spellings
     {"id": "ddl-colon", "data": "[(1,)]", "schema": "'a: int'"},
     {"id": "ddl-struct", "data": "[(Row(x=1, y='s'),)]", "schema": "'a struct<x:bigint,y:string>'"},
